@@ -49,8 +49,8 @@ type unsafePtr struct{ p value }
 const pageSize = 256
 
 type backing struct {
-	elems []value                     // dense (non-nil for dense backings)
-	pages map[int]*[pageSize]value    // paged byte store (files, mmaps)
+	elems []value                  // dense (non-nil for dense backings)
+	pages map[int]*[pageSize]value // paged byte store (files, mmaps)
 	paged bool
 	size  int
 	// file identity for mmap faults
